@@ -16,6 +16,7 @@
 #include "link_or_value.h"
 #include "log.h"
 #include "tree_instance.h"
+#include "verif_hooks.h"
 
 #include "glog/logging.h"
 
@@ -184,10 +185,12 @@ static void border_split(tree_instance* ti, border_node* const border,
                                      border->get_key_slice_at(src_index));
         new_border->set_key_length_at(index_ctr,
                                       border->get_key_length_at(src_index));
+        YK_VP(YK_PLAINW, YK_C_TREE, new_border->get_lv_at(index_ctr));
         new_border->set_lv(index_ctr, border->get_lv_at(src_index));
         base_node* nl = border->get_lv_at(src_index)->get_next_layer();
         if (nl != nullptr) { nl->set_parent(new_border); }
         ++index_ctr;
+        YK_VP(YK_PLAINW, YK_C_TREE, border->get_lv_at(src_index));
         border->init_border(src_index);
         border->get_permutation().delete_rank(
                 remaining_size); // this is tricky.
